@@ -281,6 +281,8 @@ def run(tier):
     specials = PAYLOADS + ["RECORD_VERSION", "Record", "self", "cls", "args", "kwargs", "k", "v", "f", "values", "class", "from", "None", "True", "x" * 200, "a" * 254, "A/b/C_1", "a/b/", "/a", "a//b", "_a", "a_", "a1", "1a"]
     specials += ["test/1abc", "_private/x", "test//a", "test/a/", "t\u00e9st/a", "test/a\rimport os", "a\rb", "a/b\x0bc", "a/b\x0cc", "a/b\x1cc", "a/b\x85c", "a/b\u2028c"]
     specials += ["test/\udcffvil", "str\udcffing", "a\udc80", "test/\u202eevil", "caf\u00e9"]           # (undecodable bytes, as surrogate escapes)
+    # the reserved metadata names as (components of) a type name (round g): no component may start with an underscore
+    specials += ["_source", "_version", "test/_version", "a/_classification/b", "_generated/x", "test/_source"]
     for text in specials:
         for pos in ("field", "type"):
             for path in ("ctor", "frame", "framebin", "json", "avro", "ctorstr"):
